@@ -163,7 +163,7 @@ PROP = {
     "bounds": {
         "L1 read-back": "quick: 2 lines of <= 4 bytes with values of 0..3 bytes (every Line/Column/minColumn combination), 3 lines of 3/0/3 bytes with value 2 (all) and 3/3/3 with value 3 (all); thorough: 2x4 bytes with values 0..4 (all combinations), 3x3 with values 3 (all) and 4 (every 4th), 4/0/4, 4/4/4 and 5/5 with value 3 (every 2nd/6th/3rd)",
         "L2 readRange": "<= 3 (thorough 4) ranges of width <= 3 (4), lines and columns symbolic in 1..9, first/last symbolic, offsets 0..9",
-        "L3 layouts": "9 styles x key indent {0,2,3} (thorough 0..3) x continuation indent {2,3} (thorough 2..4) x trailing comment of 0/2 bytes (thorough 0/1/3) x value on key line / next line x with/without sibling fields x literal blocks with a more-indented second line; content lines of 4+3 and 6+5 bytes (thorough also 1+1)",
+        "L3 layouts": "every style also once with an explicit !!str tag (Style carries yaml.TaggedStyle; node position = the tag); 9 styles x key indent {0,2,3} (thorough 0..3) x continuation indent {2,3} (thorough 2..4) x trailing comment of 0/2 bytes (thorough 0/1/3) x value on key line / next line x with/without sibling fields x literal blocks with a more-indented second line; content lines of 4+3 and 6+5 bytes (thorough also 1+1)",
         "parser run": "alert rule with the generated expr field, optional for: and a one-entry labels map with a 2-byte symbolic value; line/column offsets (0,0) and (2,3)",
         "alphabet": "first byte of a content line: a-z except t f n y o, '_' '(' (block scalars also '-' '+'); other bytes: a-z 0-9 _ ( ) + - * / . = < ~ and space (not at the end of a line); quoted styles: the same plus leading/trailing spaces; comment bytes additionally '#'. L1/L2 bytes: any ASCII except newline.",
     },
